@@ -114,6 +114,10 @@ def build_graph(case):
                     es.append((hub, hub + j, 1 + (j * 3 + h) % 50))
         for h in range(1, hubs):  # hubs form a chain so that the graph is connected
             es.append(((h - 1) * (leaves + 1), h * (leaves + 1), 3))
+            # shortcuts from some leaves of the previous hub: a hub is first reached over one heavy edge and later
+            # improved over a lighter two-hop path, while it may be in the middle of relaxing its many out-edges
+            for j in range(5, leaves + 1, 5):
+                es.append(((h - 1) * (leaves + 1) + j, h * (leaves + 1), 150 + j % 50))
         return n, es
     for (s, d, w) in case["edges"]:
         s, d = s % n, d % n
@@ -176,10 +180,15 @@ class UF:
         return True
 
 
+TOPO = [""]  # set per case by check()
+
+
 def run_app(cmd, work, threads, hosts=None, timeout=180):
     env = dict(os.environ)
     env["GALOIS_DO_NOT_BIND_THREADS"] = "1"
     env["OMPI_MCA_mpi_yield_when_idle"] = "1"
+    if not hosts and TOPO[0]:
+        env["GALOIS_VERIF_TOPO"] = TOPO[0]  # synthetic socket layout for the shared-memory applications (hook)
     if hosts:
         env["GALOIS_VERIF_TOPO"] = str(max(1, threads))
         cmd = ["mpirun", "--allow-run-as-root", "--oversubscribe", "--bind-to", "none", "-np", str(hosts)] + cmd
@@ -212,6 +221,19 @@ def sym_simple(n, es):
     return adj, und
 
 
+def check_sp_output(txt, ref, report, visited, start, n):
+    if ref[report] is not None:
+        got = grab(txt, r"Node %d has distance (\d+)" % report, "report node distance")
+        if got != ref[report]:
+            raise Violation("wrong-distance", "node %d: app says %d, reference %d (start %d, n=%d)" % (report, got, ref[report], start, n))
+    gv = grab(txt, r"# visited nodes is (\d+)", "# visited")
+    gm = grab(txt, r"Max distance is (\d+)", "max distance")
+    gs = grab(txt, r"Sum of visited distances is (\d+)", "sum of distances")
+    if (gv, gm, gs) != (len(visited), max(visited), sum(visited)):
+        raise Violation("wrong-summary", "visited/max/sum: app %s, reference %s (start %d, n=%d)" %
+                        ((gv, gm, gs), (len(visited), max(visited), sum(visited)), start, n))
+
+
 def check(case, work):
     app = case["app"]
     n, es = build_graph(case)
@@ -219,7 +241,16 @@ def check(case, work):
     if case["shape"] == "star-forest" and app not in ("bfs", "sssp", "cc", "prpush", "prpull", "pr-dist"):
         case = dict(case, shape="hub")  # the large shape only where the reference is cheap
         n, es = build_graph(case)
-    labels = {"app": app, "threads": threads, "shape": case["shape"], "n": "<=12" if n <= 12 else "<=60" if n <= 60 else "<=400" if n <= 400 else ">400"}
+    # socket layout: the machine's own (one socket), or the threads split over two or more synthetic sockets
+    # (several code paths -- stealing, per-socket worklists, socket-dependent algorithm variants -- depend on it)
+    TOPO[0] = ""
+    if not app.endswith("-dist") and threads >= 2 and case["start"] % 3:
+        if case["start"] % 3 == 1 or threads < 4:
+            TOPO[0] = "%d,%d" % (threads - threads // 2, threads // 2)
+        else:
+            q = threads // 4
+            TOPO[0] = ",".join(str(x) for x in [threads - 3 * q, q, q, q])
+    labels = {"app": app, "threads": threads, "shape": case["shape"], "topo": TOPO[0] or "machine", "n": "<=12" if n <= 12 else "<=60" if n <= 60 else "<=400" if n <= 400 else ">400"}
     has_multi = len(set((s, d) for (s, d, _) in es)) < len(es) or any(s == d for (s, d, _) in es)
     gr = os.path.join(work, "g.gr")
     tgr = os.path.join(work, "g.tgr")
@@ -250,17 +281,10 @@ def check(case, work):
                 labels["exec"] = ex
             else:
                 cmd.append("-delta=%d" % (case["param"] % 14))
-            txt = run_app(cmd, work, threads)
-            if ref[report] is not None:
-                got = grab(txt, r"Node %d has distance (\d+)" % report, "report node distance")
-                if got != ref[report]:
-                    raise Violation("wrong-distance", "node %d: app says %d, reference %d (start %d, n=%d)" % (report, got, ref[report], start, n))
-            gv = grab(txt, r"# visited nodes is (\d+)", "# visited")
-            gm = grab(txt, r"Max distance is (\d+)", "max distance")
-            gs = grab(txt, r"Sum of visited distances is (\d+)", "sum of distances")
-            if (gv, gm, gs) != (len(visited), max(visited), sum(visited)):
-                raise Violation("wrong-summary", "visited/max/sum: app %s, reference %s (start %d, n=%d)" %
-                                ((gv, gm, gs), (len(visited), max(visited), sum(visited)), start, n))
+            # schedule dependent variants on the large shape: sample a few schedules
+            for _rep in range(3 if (case["shape"] == "star-forest" and threads >= 2) else 1):
+                txt = run_app(cmd, work, threads)
+                check_sp_output(txt, ref, report, visited, start, n)
         else:
             hosts = case["hosts"]
             pp = case["pushpull"]
